@@ -23,8 +23,9 @@ func New(less LessFunc) *Tree {
 }
 
 func (t *Tree) Insert(item interface{}) {
-	node := &Node{Item: item, Less: t.Less}
+	node := &Node{Item: item, Less: t.Less, Red: true}
 	t.Root = t.Root.insert(node)
+	t.Root.Red = false
 	t.Count++
 }
 
